@@ -2,6 +2,8 @@ package main
 
 // Additional spec functions of the contract language.
 
+import "fmt"
+
 func init() {
 	// unchanged(s, lo, hi): s[k] == old(s[k]) for lo <= k < hi (same region, indices relative to s in the current state)
 	specFuncs["unchanged"] = func(env *Env, n *ECall) Value {
@@ -118,4 +120,73 @@ func itoa(i int) string {
 		i /= 10
 	}
 	return s
+}
+
+
+func init() {
+	// inset(s, k): membership in a ghost set of uint64
+	specFuncs["inset"] = func(env *Env, n *ECall) Value {
+		if len(n.Args) != 2 {
+			env.fail("inset expects (set, key)")
+		}
+		sv, ok := env.eval(n.Args[0]).(VTerm)
+		if !ok {
+			env.fail("inset: not a ghost set")
+		}
+		k := coerceUntyped(env.evalInt(n.Args[1]), 64, false).T
+		return VBool{Select(sv.T, k)}
+	}
+	// Go maps with scalar keys and values: mhas(m, k), mget(m, k), mlen(m)
+	mapOf := func(env *Env, x Expr) (present, vals, ln T) {
+		m, ok := env.eval(x).(VMap)
+		if !ok {
+			env.fail("expected a Go map")
+		}
+		p, v, l, ok := env.e.mapParts(env.st, m)
+		if !ok {
+			env.fail("map with unsupported key or element type")
+		}
+		return p, v, l
+	}
+	specFuncs["mhas"] = func(env *Env, n *ECall) Value {
+		p, _, _ := mapOf(env, n.Args[0])
+		k := coerceUntyped(env.evalInt(n.Args[1]), p.Sort.Idx.W, false).T
+		return VBool{Select(p, k)}
+	}
+	specFuncs["mget"] = func(env *Env, n *ECall) Value {
+		p, v, _ := mapOf(env, n.Args[0])
+		k := coerceUntyped(env.evalInt(n.Args[1]), p.Sort.Idx.W, false).T
+		return VInt{T: Select(v, k)}
+	}
+	specFuncs["mlen"] = func(env *Env, n *ECall) Value {
+		_, _, l := mapOf(env, n.Args[0])
+		return VInt{T: l, Signed: true}
+	}
+	// rangevisited(k): the key k has already been produced by the (innermost,
+	// most recent) range-over-map loop of the current function
+	specFuncs["rangevisited"] = func(env *Env, n *ECall) Value {
+		if env.fr == nil {
+			env.fail("rangevisited outside a function body")
+		}
+		best := ""
+		bestN := -1
+		for _, v := range env.fr.Vals {
+			if it, ok := v.(VIter); ok && it.ID != "" {
+				var num int
+				fmt.Sscanf(it.ID, "iter#%d", &num)
+				if num > bestN {
+					bestN, best = num, it.ID
+				}
+			}
+		}
+		if best == "" {
+			env.fail("rangevisited: no range-over-map loop in scope")
+		}
+		vis, ok := env.st.Ghost[best+":visited"].(VTerm)
+		if !ok {
+			env.fail("rangevisited: iterator state missing")
+		}
+		k := coerceUntyped(env.evalInt(n.Args[0]), vis.T.Sort.Idx.W, false).T
+		return VBool{Select(vis.T, k)}
+	}
 }
